@@ -1,10 +1,10 @@
 SPECIFICATION Spec
 CONSTANTS
-  MaxAdds = 2
+  MaxAdds = 1
   MaxFlaps = 2
   MaxShut = 1
-  MaxFees = 0
-  FeeRates = {6000, 9000, 12000}
+  MaxFees = 1
+  FeeRates = {6000, 9000}
   BaseFee = 6000
   Kinds = {0, 1}
   BlockInOnResume = FALSE
